@@ -287,16 +287,44 @@ func (p *Program) c10Scope() []c10Struct {
 			add(qn, tbl)
 		}
 	}
-	add(p.Named("internal/queues", "ringBuffer"), func() map[string]fieldClass {
-		t := map[string]fieldClass{}
-		for _, f := range []string{"buffer", "head", "tail", "mod"} {
-			t[f] = fieldClass{Class: "guarded", Lock: "internal/queues:RingQueue.lock"}
+	// the queue's storage struct(s): every struct type reachable through a pointer field of the queue type, all fields guarded
+	// by the queue's mutex (by role: no type or field names)
+	for _, m := range p.mailboxTypes() {
+		if m.SysQ == nil {
+			continue
 		}
-		return t
-	}())
+		qn := namedOf(m.SysQ.Type())
+		qst, ok := qn.Underlying().(*types.Struct)
+		if !ok {
+			continue
+		}
+		lockName := ""
+		for i := 0; i < qst.NumFields(); i++ {
+			if typeIs(qst.Field(i).Type(), "sync", "Mutex") {
+				lockName = relPkg(qn.Obj().Pkg()) + ":" + qn.Obj().Name() + "." + qst.Field(i).Name()
+			}
+		}
+		for i := 0; i < qst.NumFields(); i++ {
+			inner := namedOf(qst.Field(i).Type())
+			if inner == nil || inner == qn || inner.Obj().Pkg() != qn.Obj().Pkg() {
+				continue
+			}
+			ist, ok := inner.Underlying().(*types.Struct)
+			if !ok || lockName == "" {
+				continue
+			}
+			t := map[string]fieldClass{}
+			for k := 0; k < ist.NumFields(); k++ {
+				t[ist.Field(k).Name()] = fieldClass{Class: "guarded", Lock: lockName}
+			}
+			add(inner, t)
+		}
+	}
 	add(p.Named("internal/remoting", "Mailbox"), nil)
 	add(p.Named("internal/remoting", "MailboxCentral"), nil)
-	add(p.Named("internal/remoting", "tcpConnectionActor"), nil)
+	if rm := p.remoting(); rm != nil && rm.ConnT != nil {
+		add(rm.ConnT, nil)
+	}
 	add(p.Named("internal/remoting", "ServerActor"), map[string]fieldClass{
 		"remotingMailboxCentral": {Class: "published-wg", Reason: "assigned before WaitGroup.Done in the server's OnLaunch, read after WaitGroup.Wait"},
 	})
